@@ -129,7 +129,9 @@ func (s *TemporalStore) Add(atom ast.Atom, interval ast.Interval) (bool, error) 
 		}
 	}
 
-	hash := atom.Hash()
+	// The key identifies the atom: different atoms with the same hash code
+	// get different keys (see atomSlot).
+	hash, _ := atomSlot(s.atoms, atom)
 
 	// Store the atom
 	s.atoms[hash] = atom
@@ -265,7 +267,11 @@ func (s *TemporalStore) ContainsAt(atom ast.Atom, t time.Time) bool {
 		return false
 	}
 
-	tree, ok := predMap[atom.Hash()]
+	key, known := atomSlot(s.atoms, atom)
+	if !known {
+		return false
+	}
+	tree, ok := predMap[key]
 	if !ok {
 		return false
 	}
@@ -444,14 +450,15 @@ func (a *TemporalFactStoreAdapter) Contains(atom ast.Atom) bool {
 
 // GetFacts returns facts matching the query (respecting queryAt if set).
 func (a *TemporalFactStoreAdapter) GetFacts(query ast.Atom, fn func(ast.Atom) error) error {
-	seen := make(map[uint64]bool)
+	seen := make(map[uint64]ast.Atom)
 
 	callback := func(tf TemporalFact) error {
-		hash := tf.Atom.Hash()
-		if seen[hash] {
+		// An atom is reported once, however many intervals it has.
+		key, found := atomSlot(seen, tf.Atom)
+		if found {
 			return nil
 		}
-		seen[hash] = true
+		seen[key] = tf.Atom
 		return fn(tf.Atom)
 	}
 
